@@ -106,6 +106,7 @@ Theorem C14_module_spliced_at_import_point : forall fs cwd main_path alias modul
     tokenize src (module_file_path main_path module_path) = Ok toks /\
     expand_dirname cwd toks (module_file_path main_path module_path) = Ok toks' /\
     ps_rest s2 = semi :: filter (fun t => negb (tk_is (t_kind t) TEOT)) (prepend_names toks' alias false) ++ after /\
+    tk_is (t_kind (last (filter (fun t => negb (tk_is (t_kind t) TEOT)) (prepend_names toks' alias false)) (eot []))) TImport = false /\
     ps_mods s2 = (alias, same_file_key (module_file_path main_path module_path)) :: ps_mods s1.
 Proof. exact import_splices_in_place. Qed.
 Print Assumptions C14_module_spliced_at_import_point.
